@@ -106,6 +106,17 @@ def Ty.schemaTrees (t : Ty) (name : B) (v : Val) : List Tree :=
    .node 29 (8 + name.length) 0 false [.node 29 8 0 false [], .node 37 name.length 1 false []],
    Ty.treeW t v hl]
 
+/-- The same when `k` bytes have been written before (`serialize_on_field_write` on a writer at position `k`). -/
+def Ty.schemaTreesAt (t : Ty) (name : B) (v : Val) (k : Nat) : List Tree :=
+  let hl := 37 + name.length
+  [.node k 8 0 false [], .node (k + 8) 2 0 false [], .node (k + 10) 2 0 false [], .node (k + 12) 1 0 false [],
+   .node (k + 13) 8 0 false [], .node (k + 21) 8 0 false [],
+   .node (k + 29) (8 + name.length) 0 false [.node (k + 29) 8 0 false [], .node (k + 37) name.length 1 false []],
+   Ty.treeW t v (k + hl)]
+
+theorem Ty.schemaTreesAt_zero (t : Ty) (name : B) (v : Val) : t.schemaTreesAt name v 0 = t.schemaTrees name v := by
+  simp [Ty.schemaTreesAt, Ty.schemaTrees]
+
 /-- The recorded schema: pre-order traversal, top-level fields at depth 1. -/
 def Ty.schema (t : Ty) (name : B) (v : Val) : List Row := Tree.rowsList (t.schemaTrees name v) 1
 
